@@ -5,7 +5,7 @@
 set -u
 D=/tmp/dev
 [ -d $D/repo ] || git -C /repo worktree add -q --detach $D/repo HEAD
-rsync -a --delete /verif/mc/ $D/mc/ --exclude target
+rsync -a --delete ${VERIF_SRC:-/verif}/mc/ $D/mc/ --exclude target
 sed -i "s#/repo/crates#$D/repo/crates#" $D/mc/Cargo.toml
 cd $D/mc && RUSTFLAGS="${DEVFLAGS:-}" CARGO_NET_OFFLINE=true CARGO_TARGET_DIR=$D/target${DEVFLAGS:+-hooks} cargo build --release --offline 2>&1 | grep -E "^error" -A12 | head -60
 echo "dev binary: $D/target${DEVFLAGS:+-hooks}/release/gomlmc"
